@@ -220,7 +220,9 @@ def hidden_runs(pid: str, repo: str):
                 if which == "clean":
                     ok = got != "refute"
                 else:
-                    ok = got == "refute" or (meta.get("expect_patch", "").startswith("undecided") and got == "unmodelled")
+                    exp = meta.get("expect_patch", "")
+                    ok = got == "refute" or (exp.startswith("undecided") and got == "unmodelled") or \
+                        ("or silent" in exp and got == "silent")   # a slip of another property's kind (see also_checked_by)
                 out.append(dict(hidden=name, which=which, got=got, rule=rule, ok=ok))
             finally:
                 shutil.rmtree(d, ignore_errors=True)
